@@ -143,6 +143,13 @@ def main():
                 if not [d for d in ctx.disagreements if d["in_domain"]]:
                     raise
                 ctx.notes.append("harness error after the first disagreement: %r" % e)
+            # what only shows at scale: long chains through the property's own callbacks
+            try:
+                BB.scale_family(ctx, prop)
+            except Exception as e:
+                if not [d for d in ctx.disagreements if d["in_domain"]]:
+                    raise
+                ctx.notes.append("harness error in the scale family: %r" % e)
             # literal-directed effort: scenarios built around integer literals that are new in /repo's sources (none on the unchanged tree)
             try:
                 spec = LITERAL_CALLBACKS.get(prop)
